@@ -14,6 +14,9 @@ import NB.Drv.C06
 import NB.Drv.C08
 import NB.Drv.C03
 import NB.Drv.C07
+import NB.Drv.C11
+import NB.Drv.C12
+import NB.Drv.C13
 
 def handlers : List (String × (String → List String → Option (String × String))) :=
   [ ("C01", NB.Drv.C01.handle),
@@ -26,7 +29,10 @@ def handlers : List (String × (String → List String → Option (String × Str
     ("C06", NB.Drv.C06.handle),
     ("C08", NB.Drv.C08.handle),
     ("C03", NB.Drv.C03.handle),
-    ("C07", NB.Drv.C07.handle) ]
+    ("C07", NB.Drv.C07.handle),
+    ("C11", NB.Drv.C11.handle),
+    ("C12", NB.Drv.C12.handle),
+    ("C13", NB.Drv.C13.handle) ]
 
 def answer (line : String) : String :=
   match (line.trimAscii.toString.splitOn " ").filter (· ≠ "") with
